@@ -6,13 +6,12 @@
    witness proved); (2) value layer, for EVERY type: if the value-level decoder returns m then the
    encoder succeeds on m and the decoder maps its output back to m (protected headers re-emitted
    verbatim at every nesting level); (3) byte layer for every type from (1)+(2), under the
-   hypothesis that the re-encoded value is wire-normal.  Remaining gap, stated honestly: (3) keeps
-   "value_nf v' /\ depth v' <= 256" of the RE-ENCODED value as a hypothesis instead of deriving it
-   from (1) (it holds because the re-encoding only rearranges sub-values of the decoded input, a
-   fact that is exercised, not proved). *)
+   hypothesis that the re-encoded value is wire-normal.  (4) Proofs/ReencodeNf.v discharges that hypothesis: the re-encoding of a decoded value is
+   wire-normal and no deeper than the parser's output, which gives the full byte-level statement
+   for every type outside the known class (C07_all_types_bytes_fixed_point_full). *)
 From Coset.Model Require Import Prelude Cbor Iana Label Msg Key Cwt Context Api.
 From Coset.Proofs Require Import Head RoundTrip DecodedNf TypedRoundTrip.
-From Coset.Proofs Require HeaderRoundTrip MsgRoundTrip.
+From Coset.Proofs Require HeaderRoundTrip MsgRoundTrip ReencodeNf.
 Import MsgRoundTrip.
 Open Scope N_scope.
 
@@ -197,6 +196,108 @@ Theorem C07_messages_bytes_fixed_point :
   bytes_fp CoseSignature_from_value CoseSignature_to_value.
 Proof. exact MsgRoundTrip.messages_bytes_fixed_point. Qed.
 Print Assumptions C07_messages_bytes_fixed_point.
+
+(* ===== the full statement (Proofs/ReencodeNf.v): re-encoding a decoded value only rearranges
+   sub-values of the parser's output, so it stays wire-normal and no deeper; hence for EVERY type and
+   every input b shorter than 2^64 bytes whose parse contains no tag 2/3 directly over a short
+   non-normal byte string (the known class F4): if b decodes to m then m encodes to some b' and b'
+   decodes to m again (and, to_vec being a function, encoding that result again yields b'). ===== *)
+Theorem C07_CoseSign1_bytes_fixed_point_full :
+  forall b v m,
+    (N.of_nat (length b) < p64)%N -> from_reader b = Ok (v, []) -> DecodedNf.no_bad_bignum v = true ->
+    CoseSign1_from_value v = Ok m ->
+    exists b', to_vec CoseSign1_to_value m = Ok b' /\ from_slice CoseSign1_from_value b' = Ok m.
+Proof. exact ReencodeNf.CoseSign1_bytes_fixed_point_full. Qed.
+Print Assumptions C07_CoseSign1_bytes_fixed_point_full.
+
+(* reencode_nf fromv tov := forall v m v', value_nf v = true -> fromv v = Ok m -> tov m = Ok v' ->
+                              value_nf v' = true /\ depth v' <= depth v *)
+Theorem C07_all_types_reencode_nf :
+  ReencodeNf.reencode_nf Label_from_value Label_to_value /\
+  ReencodeNf.reencode_nf PartyInfo_from_value PartyInfo_to_value /\
+  ReencodeNf.reencode_nf CoseKey_from_value CoseKey_to_value /\
+  ReencodeNf.reencode_nf CoseKeySet_from_value CoseKeySet_to_value /\
+  ReencodeNf.reencode_nf ClaimsSet_from_value ClaimsSet_to_value /\
+  ReencodeNf.reencode_nf Header_from_value Header_to_value /\
+  ReencodeNf.reencode_nf ProtectedHeader_from_value protected_to_value /\
+  ReencodeNf.reencode_nf ProtectedHeader_from_cbor_bstr protected_cbor_bstr /\
+  ReencodeNf.reencode_nf CoseSignature_from_value CoseSignature_to_value /\
+  ReencodeNf.reencode_nf CoseSign1_from_value CoseSign1_to_value /\
+  ReencodeNf.reencode_nf CoseSign_from_value CoseSign_to_value /\
+  ReencodeNf.reencode_nf CoseMac_from_value CoseMac_to_value /\
+  ReencodeNf.reencode_nf CoseMac0_from_value CoseMac0_to_value /\
+  ReencodeNf.reencode_nf CoseEncrypt_from_value CoseEncrypt_to_value /\
+  ReencodeNf.reencode_nf CoseEncrypt0_from_value CoseEncrypt0_to_value /\
+  ReencodeNf.reencode_nf CoseRecipient_from_value CoseRecipient_to_value /\
+  ReencodeNf.reencode_nf SuppPubInfo_from_value SuppPubInfo_to_value /\
+  ReencodeNf.reencode_nf CoseKdfContext_from_value CoseKdfContext_to_value.
+Proof. exact ReencodeNf.all_types_reencode_nf. Qed.
+Print Assumptions C07_all_types_reencode_nf.
+
+(* bytes_fp_full fromv tov := the statement of C07_CoseSign1_bytes_fixed_point_full for (fromv, tov) *)
+Theorem C07_all_types_bytes_fixed_point_full :
+  ReencodeNf.bytes_fp_full Label_from_value Label_to_value /\
+  ReencodeNf.bytes_fp_full PartyInfo_from_value PartyInfo_to_value /\
+  ReencodeNf.bytes_fp_full CoseKey_from_value CoseKey_to_value /\
+  ReencodeNf.bytes_fp_full CoseKeySet_from_value CoseKeySet_to_value /\
+  ReencodeNf.bytes_fp_full ClaimsSet_from_value ClaimsSet_to_value /\
+  ReencodeNf.bytes_fp_full Header_from_value Header_to_value /\
+  ReencodeNf.bytes_fp_full ProtectedHeader_from_value protected_to_value /\
+  ReencodeNf.bytes_fp_full ProtectedHeader_from_cbor_bstr protected_cbor_bstr /\
+  ReencodeNf.bytes_fp_full CoseSignature_from_value CoseSignature_to_value /\
+  ReencodeNf.bytes_fp_full CoseSign1_from_value CoseSign1_to_value /\
+  ReencodeNf.bytes_fp_full CoseSign_from_value CoseSign_to_value /\
+  ReencodeNf.bytes_fp_full CoseMac_from_value CoseMac_to_value /\
+  ReencodeNf.bytes_fp_full CoseMac0_from_value CoseMac0_to_value /\
+  ReencodeNf.bytes_fp_full CoseEncrypt_from_value CoseEncrypt_to_value /\
+  ReencodeNf.bytes_fp_full CoseEncrypt0_from_value CoseEncrypt0_to_value /\
+  ReencodeNf.bytes_fp_full CoseRecipient_from_value CoseRecipient_to_value /\
+  ReencodeNf.bytes_fp_full SuppPubInfo_from_value SuppPubInfo_to_value /\
+  ReencodeNf.bytes_fp_full CoseKdfContext_from_value CoseKdfContext_to_value.
+Proof. exact ReencodeNf.all_types_bytes_fixed_point_full. Qed.
+Print Assumptions C07_all_types_bytes_fixed_point_full.
+
+(* same with `from_slice fromv b = Ok m` as the hypothesis *)
+Theorem C07_all_types_bytes_fixed_point_full_slice :
+  ReencodeNf.bytes_fp_full_slice Label_from_value Label_to_value /\
+  ReencodeNf.bytes_fp_full_slice PartyInfo_from_value PartyInfo_to_value /\
+  ReencodeNf.bytes_fp_full_slice CoseKey_from_value CoseKey_to_value /\
+  ReencodeNf.bytes_fp_full_slice CoseKeySet_from_value CoseKeySet_to_value /\
+  ReencodeNf.bytes_fp_full_slice ClaimsSet_from_value ClaimsSet_to_value /\
+  ReencodeNf.bytes_fp_full_slice Header_from_value Header_to_value /\
+  ReencodeNf.bytes_fp_full_slice ProtectedHeader_from_value protected_to_value /\
+  ReencodeNf.bytes_fp_full_slice ProtectedHeader_from_cbor_bstr protected_cbor_bstr /\
+  ReencodeNf.bytes_fp_full_slice CoseSignature_from_value CoseSignature_to_value /\
+  ReencodeNf.bytes_fp_full_slice CoseSign1_from_value CoseSign1_to_value /\
+  ReencodeNf.bytes_fp_full_slice CoseSign_from_value CoseSign_to_value /\
+  ReencodeNf.bytes_fp_full_slice CoseMac_from_value CoseMac_to_value /\
+  ReencodeNf.bytes_fp_full_slice CoseMac0_from_value CoseMac0_to_value /\
+  ReencodeNf.bytes_fp_full_slice CoseEncrypt_from_value CoseEncrypt_to_value /\
+  ReencodeNf.bytes_fp_full_slice CoseEncrypt0_from_value CoseEncrypt0_to_value /\
+  ReencodeNf.bytes_fp_full_slice CoseRecipient_from_value CoseRecipient_to_value /\
+  ReencodeNf.bytes_fp_full_slice SuppPubInfo_from_value SuppPubInfo_to_value /\
+  ReencodeNf.bytes_fp_full_slice CoseKdfContext_from_value CoseKdfContext_to_value.
+Proof. exact ReencodeNf.all_types_bytes_fixed_point_full_slice. Qed.
+Print Assumptions C07_all_types_bytes_fixed_point_full_slice.
+
+(* the hypotheses are satisfiable: an 18-byte COSE_Sign1 with protected {1: -7} and unprotected {4: h'3131'} *)
+Theorem C07_bytes_fixed_point_full_nonvacuous :
+  (* all hypotheses of CoseSign1_bytes_fixed_point_full hold for the example ... *)
+  (N.of_nat (length ReencodeNf.example_sign1_bytes) < p64)%N /\
+  from_reader ReencodeNf.example_sign1_bytes = Ok (ReencodeNf.example_sign1_value, []) /\
+  DecodedNf.no_bad_bignum ReencodeNf.example_sign1_value = true /\
+  CoseSign1_from_value ReencodeNf.example_sign1_value = Ok ReencodeNf.example_sign1 /\
+  (* ... so does that of the from_slice form ... *)
+  from_slice CoseSign1_from_value ReencodeNf.example_sign1_bytes = Ok ReencodeNf.example_sign1 /\
+  (* ... the message is not trivial ... *)
+  h_alg (p_hdr (s1_prot ReencodeNf.example_sign1)) = Some (PAssigned (-7)) /\
+  h_kid (s1_unprot ReencodeNf.example_sign1) = [x31; x31] /\
+  (* ... and the conclusion, here with the very same bytes *)
+  to_vec CoseSign1_to_value ReencodeNf.example_sign1 = Ok ReencodeNf.example_sign1_bytes /\
+  exists b', to_vec CoseSign1_to_value ReencodeNf.example_sign1 = Ok b' /\
+             from_slice CoseSign1_from_value b' = Ok ReencodeNf.example_sign1.
+Proof. exact ReencodeNf.CoseSign1_bytes_fixed_point_full_nonvacuous. Qed.
+Print Assumptions C07_bytes_fixed_point_full_nonvacuous.
 
 (* known finding F4: tag 2 over an indefinite-length byte string of one byte *)
 Theorem C07_short_bignum_refuted :
